@@ -658,7 +658,22 @@ def run(rep):
     # the binary and the group form of each connective have to agree (evaluated on the extracted solver model, shared with C06)
     import core
     core.import_rules(rep, "c06", {"TRI-NOT", "TRI-AND", "TRI-OR"})
-    rep.floor("T-KEYWORD", 31)
+    # the token grammar as a whole: tokenise evaluated over the probe conditions (keywords with and without their terminating character,
+    # words that merely begin with keyword letters, numbers, operators, delimiters, white space, characters outside the alphabet)
+    import core as _core
+    import tokmodel
+    rep.describe("TOK-MODEL", "tokenise evaluated over %d probe conditions yields the documented token vector (or error)" % len(tokmodel.PROBES))
+    trows, tun = tokmodel.evaluate(F)
+    if trows is None:
+        rep.note("tokeniser model not applicable (%s); structural rules decide" % tun)
+    else:
+        for text, want, got, agree in trows:
+            rep.check(agree, "TOK-MODEL", "TOK-MODEL/%s" % (text if text.strip() else repr(text)), "src/tokeniser.rs", "condition %r is tokenised as documented" % text,
+                      None if agree else "expected %s, the body yields %s" % (str(want)[:160], str(got)[:160]))
+    if not _core.model_decides(rep, trows is not None and all(r[3] for r in trows), {"T-KEYWORD"}, "keyword recognition decided by the tokeniser model"):
+        rep.floor("T-KEYWORD", 31)
+    else:
+        rep.floor("TOK-MODEL", 140)
     rep.floor("MATCH-AHEAD", 3)
     rep.exhaustive = True
     rep.assumptions.append("the Pratt skeleton recognised (nud; loop{peek; break-test; led}) is the textbook one: its parameters then fix precedence and associativity")
